@@ -18,7 +18,7 @@ GEN_DEPS = ["GenC12Mass"]
 RULE = ("cases: (model, rectangle, index subset); models = dyadic step margins x {independent, completely dependent} (exact) and "
         "HEM/Merton/CGMY/VG margins x {Clayton, independent, dependent} (tolerance); rectangles cover every combination of interval "
         "kinds per coordinate (negative/positive/straddling x finite/-inf/+inf/end point 0) that does not contain the origin; index "
-        "subsets None, full, pairs, singles; non-trivial = distinct (model, a, b, indices) with a non-degenerate rectangle")
+        "subsets None, full, pairs, singles; a rectangle with end point 0 on an infinite-activity margin (U_i(0)=inf) may have mass +inf (accepted), nan only if every coordinate interval touches 0 (true mass infinite); non-trivial = distinct (model, a, b, indices) with a non-degenerate rectangle")
 MODELLED = [
     "_mass_nd, margin_tail_integral, tail_integrals, marginal_tail_integral, volume, margin, Independent/DependentComponentsCopula: "
     "hand models (Model/MassNd.v, Model/Copula.v) tied by exact vm_compute correspondence on dyadic step margins",
@@ -198,10 +198,13 @@ def correspond(res):
         (2, [["merton2"], ["hem"]], ["clayton", 1.0, 1.0]),
         (2, [["hem"], ["cgmy"]], ["indep"]),
         (2, [["merton"], ["vg"]], ["dep"]),
+        (2, [["cgmy"], ["vg"]], ["indep"]),
+        (2, [["cgmy2"], ["cgmy"]], ["dep"]),
         (3, [["hem"], ["merton"], ["cgmy"]], ["clayton", 0.7, 0.3]),
         (3, [["cgmy2"], ["vg"], ["hem2"]], ["clayton", 1.8, 0.55]),
         (3, [["merton"], ["hem2"], ["merton2"]], ["indep"]),
         (3, [["hem"], ["cgmy"], ["vg"]], ["dep"]),
+        (3, [["cgmy"], ["vg"], ["cgmy2"]], ["indep"]),
     ]
     if tier == "thorough":
         real_models += [(d, m, ["clayton", th, et]) for (d, m, _) in real_models[:2] + real_models[6:8]
@@ -227,9 +230,15 @@ def correspond(res):
                 res.bump("straddling_coordinates", sum(1 for x, y in zip(aa, bb) if x < 0 <= y))
                 desc = dict(a=list(aa), b=list(bb), indices=ind, **desc0)
                 if zero_on_inf_act:
-                    # U_i(0) = +inf for an infinite-activity margin: such a rectangle may legitimately have infinite mass;
-                    # it is only counted, the finite-activity models cover the end point 0
-                    res.bump("skipped_zero_end_point_infinite_activity", 1)
+                    # U_i(0) = +inf for an infinite-activity margin: the rectangle reaches the axis x_i = 0 and may have
+                    # infinite mass; +inf is accepted, nan / negative / fast != nd are not
+                    res.bump("zero_end_point_on_infinite_activity_margin", "inf" if vf == INF else ("nan" if math.isnan(vf) else "finite"))
+                    if math.isnan(vf) or math.isnan(vn):
+                        if not (math.isnan(vf) and sum(1 for x, y in zip(aa, bb) if x < 0 <= y or x == 0) == len(aa)):
+                            viol("mass is nan on a rectangle that does not contain the origin", kind="mass", fast=vf, nd=vn, **desc)
+                    elif vf < -TOL_ABS or (vf != vn and not close(vf, vn, max(1e-3, abs(vf) if math.isfinite(vf) else 1.0))):
+                        viol("negative rectangle mass" if vf < 0 else "fast path and _mass_nd differ", kind="nonneg" if vf < 0 else "fast_vs_nd",
+                             fast=vf, nd=vn, **desc)
                     continue
                 with np.errstate(all="ignore"):
                     scale = max([1e-3] + [abs(float(model.marginal_tail_integral(i, x))) for i, xs in zip(idxs, zip(aa, bb)) for x in xs
